@@ -1,5 +1,5 @@
 SPECIFICATION Spec
-CONSTANTS Workers = {w1, w2, w3}  MaxIter = 4  AllowCancel = FALSE  BodiesEnd = TRUE  PreCancelled = FALSE  SyncFlag = TRUE
+CONSTANTS ParamSet <- P_3x4  AllowCancel = FALSE  BodiesEnd = TRUE  SyncFlag = TRUE
 INVARIANTS Ceiling Gapless Unique
 PROPERTIES ExactlyN
 CHECK_DEADLOCK FALSE
